@@ -497,7 +497,7 @@ def aimed(gen, kind, want, tries=40):
         if want == 'ok' and res == 'ok':
             return op
         if want != 'ok' and res != 'ok':
-            if want == 'raise' or c._is_dag is None:
+            if want == 'raise' or getattr(c, '_is_dag', None) is None:
                 return op
             fallback = op
     return fallback or op
